@@ -293,3 +293,55 @@ PROPS["C11"] = dict(
           ".arch derived only from the flags must accept every instruction; mmx listings must not name an xmm/ymm register."),
     assumptions=["the listing is the emitted code (that is C12)", "32-bit variants are judged statically only"],
 )
+
+
+PROPS["C02"] = dict(
+    variant="plain",
+    sources=ENGINE + ["engine/refsem.c", "props/c02_emulate.c"],
+    level="exploration",
+    technique="reference-model testing: emulation vs an independently written interpreter of the opcode reference, exhaustive for 8-bit operand pairs",
+    level_text=("every integer sys opcode in every operand-kind/prefix/in-place/2-D form is emulated for n=1..50 (every position of the "
+                "16-element chunks) on boundary and random data and, for 8-bit opcodes and unary 16-bit opcodes, on ALL 2^16 operand "
+                "values/pairs; random multi-instruction programs are interpreted element by element by the reference. Exhaustive for "
+                "the 8/16-bit operand spaces named, sampled (boundary-biased) for 32/64-bit operands"),
+    level_note=("trusted base: engine/refsem.c (from doc/opcode_table.xml; deviations from the table's pseudo code are listed in its "
+                "comments and in DESIGN.md) and the small program interpreter in props/c02_emulate.c; float opcodes are judged in C18"),
+    stages=[
+        dict(name="enum-single-opcode", mode="enum", quick=dict(budget=60), thorough=dict(budget=900)),
+        dict(name="rc-programs", mode="rc", quick=dict(cases=60000, max_size=400, budget=40),
+             thorough=dict(cases=3000000, max_size=500, budget=600)),
+    ],
+    rule=("case = (program, run configurations) executed only through orc_executor_emulate. Enumerated: case 0 cross-checks the library's "
+          "opcode table (order, sizes, flags) against /verif's table and doc/opcode_table.xml; then every integer opcode x operand-kind x "
+          "x1/x2/x4 x in-place x 1-D/2-D form with n in {1,2,3,4,5,7,8,9,15,16,17,18,31,32,33,47,48,49,50} on boundary/min-max/random "
+          "data, plus n=65536 covering all operand pairs for 8-bit opcodes and all values for unary 16-bit opcodes. Generated: rapidcheck "
+          "choice streams -> integer programs of 1..24 instructions with 3..8 run configurations. inner_evaluations counts elements "
+          "compared. Non-trivial = at least one element compared; distinct = hash(program, n values). Oracle: refsem element semantics "
+          "applied lane by lane (x2/x4), loads through the documented index formulas, accumulators summed modulo 2^16/2^32 from zero."),
+    assumptions=["shift counts 0..width-1; resampling/offset parameters keep indices inside the source arrays",
+                 "documentation conflicts resolved as listed in engine/refsem.c (andn = (~a)&b, mulh?l shift 32, ldres index >>16, ...)"],
+)
+
+
+PROPS["C13"] = dict(
+    variant="asan",
+    sources=ENGINE + ["props/c13_bytecode.c"],
+    level="exploration",
+    technique="round-trip property (encode/decode/encode) over rapidcheck-generated programs, under ASan/UBSan",
+    level_text=("generated valid programs (integer and float opcodes, all four parameter classes, 64-bit constants, 2-D, fixed-size "
+                "settings, declared alignments, x2/x4, up to 60 instructions, boundary values 253..257 and 65533/65534 in the "
+                "variable-length fields, names of 0..300 characters) are serialised, reconstructed and serialised again; exploration, "
+                "so only generated programs are covered"),
+    level_note=("trusted base: the field comparator of props/c13_bytecode.c (constants compared modulo their size; variable and type names "
+                "are not part of the property) and orc_executor_emulate for the behavioural comparison"),
+    stages=[
+        dict(name="rc-programs", mode="rc", quick=dict(cases=200000, max_size=400, budget=50),
+             thorough=dict(cases=5000000, max_size=500, budget=600)),
+    ],
+    rule=("case = valid program from the choice-stream decoder plus boundary encodings. Non-trivial = at least one instruction and at "
+          "least one of {64-bit constant, non-int parameter, 2-D, x2/x4 flag, length field >= 255, declared alignment}; distinct = hash "
+          "of (program, bytecode). Oracle: bc2 == bc1; field-by-field equality of the reconstruction (variable classes, sizes, "
+          "alignments, constants, parameter classes, 2-D and n/m settings, instruction order, opcode, operands, flags); identical "
+          "emulation results on 3 generated inputs."),
+    assumptions=["variable names and type names are not compared (the decoder invents names)"],
+)
